@@ -392,7 +392,7 @@ func TestUnzipContainment(t *testing.T) {
 		c := Case{Backend: rapid.SampledFrom([]string{"mem", "mem", "os"}).Draw(rt, "backend")}
 		var h bool
 		c.Archive, h = genArchive(rt, "a", 0)
-		c.Dest = rapid.SampledFrom([]string{"abs", "abs", "abs/", "abs//", "rel", "./rel", "rel/", "x/../rel", "abs-nonascii", "dotdot", "dotdot2", "dot", "empty", "dotslash"}).Draw(rt, "dest")
+		c.Dest = rapid.SampledFrom([]string{"abs", "abs", "abs/", "abs//", "rel", "./rel", "rel/", "x/../rel", "abs-nonascii", "dotdot", "dotdot2", "dotdot", "dotdot2", "dot", "empty", "dotslash"}).Draw(rt, "dest")
 		if c.Dest == "dotdot" || c.Dest == "dotdot2" || c.Dest == "dot" || c.Dest == "empty" || c.Dest == "dotslash" {
 			c.Backend = "os" // only a backend with a working directory can be given such a destination
 		}
